@@ -292,6 +292,11 @@ def bulk_delegation(prog, rep, cname, c, adder, rule="bulk-delegation"):
                           and any(isinstance(x, ast.Name) and x.id == items_p for x in ast.walk(e.value.args[0]))]
             direct = [x for e in pe.effects for x in ast.walk(e) if isinstance(x, ast.Call) and isinstance(x.func, ast.Attribute) and x.func.attr in single
                       and isinstance(x.func.value, ast.Name) and x.func.value.id == sn]
+            # the whole collection handed to another bulk operation of the class (itself in the table) is a delegation too
+            others = {m for m, _, w, _, _ in BULK[cname] if w == what and m != mname}
+            direct += [x for e in pe.effects for x in ast.walk(e) if isinstance(x, ast.Call) and isinstance(x.func, ast.Attribute) and x.func.attr in others
+                       and isinstance(x.func.value, ast.Name) and x.func.value.id == sn
+                       and any(isinstance(a, ast.Name) and a.id == items_p for a in list(x.args) + [k.value for k in x.keywords])]
             if not loop_nodes:
                 if direct:
                     continue  # handed over in some other way (e.g. the whole list to another bulk method)
